@@ -44,3 +44,10 @@ Theorem C10_wait_ends_when_rung : forall fuel w bell st acc,
   | _ => True
   end.
 Proof. exact wait_poll_exit. Qed.
+
+From Wh Require Import Parse Glue GlueP.
+From Coq Require Import ZArith QArith.
+
+(* "with keep-going set": -k / --keep-going is what removes the waiting wrapper *)
+Theorem C10_keep_going_removes_the_wait : forall c cfg, console_cfg c = Ok cfg -> bc_wait cfg = negb (cl_keep_going c).
+Proof. exact waiting_unless_keep_going. Qed.
